@@ -10,3 +10,134 @@ for n, hf, fs in rp.FAULT_UNITS + rp.GADF_UNITS_SEQ + rp.READ_UNITS:
     register(Unit(P, n, hf, functions=fs, replay=rp._replay_gadf if "get_all" in n or "row_count" in n else rp._replay_reads))
 for n, hf, fs in rp.REFRESH_UNITS:
     register(Unit(P, n, hf, functions=fs, replay=rp._replay_refresh))
+
+
+# =================================================================================== the Avro-then-JSON fallback of the manifest readers
+import z3  # noqa: E402
+from pyvc.runner import H  # noqa: E402
+def h_reader_fallback(which: str):
+    """FileManager.read_manifest_file / read_manifest_list_file themselves (applied elsewhere at the contract 'return the entries
+    or raise'): a normal return means either the Avro reader delivered EVERY record without raising, or the bytes are a legacy JSON
+    document that really carries the entry list.  Anything else raises - in particular a file that fails Avro parsing and is JSON
+    of another shape (an object without the list) is NOT an empty manifest."""
+    fn = "read_manifest_file" if which == "manifest" else "read_manifest_list_file"
+    key = "files" if which == "manifest" else "manifests"
+
+    def harness(h: H):
+        from pyvc.theories.store import Store
+        from pyvc.values import PDict, PList, SBytes, SExc, SInt, SObj, SStr, TheoryObj
+        from pyvc.engine import PyRaise, LoopSpec
+        from pyvc import acc as _acc
+        c = h.ctx
+        st = Store(h)
+        st.install(h.reg)
+        _acc.install(h.reg)
+        fm = h.obj("FileManager", storage=st.obj, manifests_path="metadata/manifests")
+        p = h.str("path")
+        g = {"avro": None, "json": None, "haskey": None, "avro_complete": False}
+        h.reg.theory_methods[("storage", "open_file")] = lambda I, o, a, k: TheoryObj("stream")
+        h.reg.theory_methods[("stream", "__enter__")] = lambda I, o, a, k: o
+        h.reg.theory_methods[("stream", "__exit__")] = lambda I, o, a, k: None
+        AVRO_ERR = ["ValueError", "IndexError", "StopIteration", "OSError", "KeyError"]
+
+        def avro_reader(I, a, k):
+            mode = I.ctx.choose(3, "avro")          # 0 parses completely, 1 header invalid, 2 fails after some records
+            g["avro"] = mode
+            if mode == 1:
+                raise PyRaise(SExc(AVRO_ERR[I.ctx.choose(4, "avro-exc")], origin="fastavro: not an avro file", fields={"damage": True}))
+
+            def mk(I2):
+                if mode == 2 and I2.ctx.flip("record-unreadable"):
+                    raise PyRaise(SExc(AVRO_ERR[I2.ctx.choose(4, "avro-exc")], origin="fastavro: truncated block", fields={"damage": True}))
+                return TheoryObj("symdict", label="record")
+            it = TheoryObj("symiter", fields={"mk": mk})
+            return it
+        h.reg.modfuncs["fastavro.reader"] = avro_reader
+
+        def json_loads(I, a, k):
+            mode = I.ctx.choose(2, "json")           # 0 not JSON, 1 a JSON document
+            g["json"] = mode
+            if mode == 0:
+                raise PyRaise(SExc("ValueError", origin="json: no JSON", fields={"damage": True}))
+            return TheoryObj("jsondoc")
+        h.reg.modfuncs["json.loads"] = json_loads
+
+        def doc_get(I, o, a, k):
+            g["haskey"] = I.ctx.flip("document-has-the-entry-list")
+            if g["haskey"]:
+                return TheoryObj("symiter", fields={"mk": lambda I2: TheoryObj("symdict", label="entry")})
+            if len(a) > 1:
+                return a[1]
+            return None
+
+        def doc_index(I, o, a, k):
+            g["haskey"] = I.ctx.flip("document-has-the-entry-list")
+            if g["haskey"]:
+                return TheoryObj("symiter", fields={"mk": lambda I2: TheoryObj("symdict", label="entry")})
+            raise PyRaise(SExc("KeyError", origin="json document lacks the key", fields={"damage": True}))
+        h.reg.theory_methods[("jsondoc", "get")] = doc_get
+        h.reg.theory_methods[("jsondoc", "__getitem__")] = doc_index
+        h.reg.theory_methods[("symdict", "__getitem__")] = lambda I, o, a, k: TheoryObj("symdict", label="nested")
+        _get0 = h.reg.theory_methods[("symdict", "get")]
+        STATS = ("lower_bounds", "upper_bounds", "column_sizes", "value_counts", "null_value_counts")
+        h.reg.theory_methods[("symdict", "get")] = lambda I, o, a, k: None if I.force(a[0]) in STATS else _get0(I, o, a, k)
+        h.reg.class_ctor["DataFile"] = lambda I, cv, a, k: SObj("DataFile", dict(k))
+        h.reg.class_ctor["ManifestFile"] = lambda I, cv, a, k: SObj("ManifestFile", dict(k))
+        h.reg.class_ctor["FileFormat"] = lambda I, cv, a, k: "parquet"
+        h.reg.class_ctor["ManifestContent"] = lambda I, cv, a, k: 0
+        done = {"avro_loop_exit": False}
+
+        def on_exit(I, env, it):
+            done["avro_loop_exit"] = True
+        acc1, acc2 = _acc.new_acc("avro_entries"), _acc.new_acc("json_entries")
+        which_list = "data_files" if which == "manifest" else "manifest_files"
+        h.reg.loops[f"file_manager:FileManager.{fn}"] = {
+            "iter:reader": LoopSpec(invariant=lambda I, e, it: [], havoc=lambda I, e, it: e.vars.__setitem__(which_list, acc1), on_exit=on_exit, name="avro",
+                                    skip=[which_list, "record", "record_raw", "df_record", "lower_bounds", "upper_bounds", "column_sizes", "value_counts", "null_value_counts", "data_file", "manifest_file"]),
+            "*": LoopSpec(invariant=lambda I, e, it: [], havoc=lambda I, e, it: e.vars.__setitem__(which_list, acc2), name="json",
+                          skip=[which_list, "file_entry", "manifest_entry", "data_file", "manifest_file"])}
+        h.assume(z3.Select(st.ex, st.key(h.I, p)))
+        out, val = h.run(f"file_manager:FileManager.{fn}", [fm, p])
+        if out == "ok":
+            via_avro = g["avro"] == 0 or (g["avro"] == 2 and done["avro_loop_exit"] and g["json"] is None)
+            h.ensure("FALLBACK:normal-return=>avro-read-to-the-end-or-a-JSON-document-that-carries-the-entry-list",
+                     bool(via_avro) or (g["json"] == 1 and g["haskey"] is True),
+                     detail=f"avro={g['avro']} json={g['json']} has-list={g['haskey']}: bytes that are neither a readable Avro file nor a legacy JSON "
+                            f"manifest were reported as an EMPTY {which}")
+        else:
+            h.ensure("FALLBACK:a-completely-readable-avro-file-never-raises", g["avro"] != 0, detail=repr(val))
+    return harness
+
+
+def _replay_fallback(ob):
+    return '''
+import sys, os, tempfile, shutil, glob
+from datashard import create_table, load_table
+from datashard.data_structures import Schema
+bad = []
+root = tempfile.mkdtemp(prefix="pyvc_replay_")
+try:
+    for target in ("manifest_list", "manifest"):
+        for junk in (b"{}", b"[]", b"null", b'{"other": 1}', b"", b"Obj\\x01garbage"):
+            p = os.path.join(root, f"{target}_{abs(hash(junk))}")
+            t = create_table(p, schema=Schema(schema_id=1, fields=[{"id": 1, "name": "a", "type": "long", "required": False}]))
+            t.append_records([{"a": 1}])
+            files = glob.glob(os.path.join(p, "metadata", "manifests", "manifest_list_*.avro" if target == "manifest_list" else "manifest_[0-9]*.avro"))
+            if not files: bad.append(("no file to damage", target)); continue
+            open(files[0], "wb").write(junk)
+            for api in ("scan", "row_count"):
+                try:
+                    r = load_table(p).scan() if api == "scan" else load_table(p).row_count()
+                    bad.append((target, junk, api, "returned", r if api == "row_count" else len(r)))
+                except Exception:
+                    pass
+finally:
+    shutil.rmtree(root, ignore_errors=True)
+print("replay manifest reader fallback ->", bad[:4] or "ok")
+sys.exit(1 if bad else 0)
+'''
+
+
+for _w in ("manifest", "list"):
+    register(Unit(P, f"FALLBACK/read_manifest_{'file' if _w == 'manifest' else 'list_file'}", h_reader_fallback(_w),
+                  functions=[f"file_manager:FileManager.read_manifest_{'file' if _w == 'manifest' else 'list_file'}"], replay=_replay_fallback))
